@@ -62,7 +62,9 @@ type rec struct {
 	K       string `json:"k"` // "boot" | "round"
 	Case    int    `json:"case"`
 	Emb     int    `json:"emb"`
-	Tau     int64  `json:"tau"`
+	Tau     int64  `json:"tau"`  // time unit of interval/timeout in ns (0: see unit)
+	Unit    string `json:"unit"` // the same, readable (2^56 does not fit a TLC integer)
+	Word    bool   `json:"word"` // start-up case of the word-range grid
 	Cfg     mcfg   `json:"cfg"`
 	Refused bool   `json:"refused"` // boot: Run panicked before reaching the loop
 	Rnd     int    `json:"rnd"`
@@ -188,6 +190,17 @@ func TestC01(t *testing.T) {
 			for ti, tau := range []time.Duration{time.Millisecond, time.Nanosecond} {
 				ei := (ci + ti) % 5
 				bootCase(t, out, ci, c, ei, tau)
+				nruns++
+				nrec++
+			}
+			continue
+		}
+		if c.Kind == "bootw" {
+			for _, w := range wordEmbs {
+				if w.ext && !hasWordMaxCfg(c.Cfg) {
+					continue
+				}
+				bootWordCase(t, out, ci, c, w)
 				nruns++
 				nrec++
 			}
